@@ -40,6 +40,30 @@ func mapOrderRewrites() []rewrite {
 	}
 }
 
+// crash hook: every mutating method of the two on-disk stores first reports to verifrt.Write,
+// which can end the process at the k-th write (VERIF_CRASH_AT) - a no-op otherwise.
+func crashHookRewrites() []rewrite {
+	hook := func(sig, name string) [2]string {
+		return [2]string{sig, sig + "\n\tverifrt.Write(\"" + name + "\")"}
+	}
+	return []rewrite{
+		{name: "crashhook:badger", file: "pkg/objects/badger/store.go", imp: true, edits: [][2]string{
+			hook("func (s *Store) Set(k, v []byte) error {", "badger.Set"),
+			hook("func (s *Store) Delete(k []byte) error {", "badger.Delete"),
+			hook("func (s *Store) Clear(prefix []byte) error {", "badger.Clear"),
+		}, count: []int{1, 1, 1}},
+		{name: "crashhook:refsql", file: "pkg/ref/sql/store.go", imp: true, edits: [][2]string{
+			hook("func (s *Store) Set(key string, sum []byte) error {", "refsql.Set"),
+			hook("func (s *Store) SetWithLog(key string, sum []byte, rl *ref.Reflog) error {", "refsql.SetWithLog"),
+			hook("func (s *Store) Delete(key string) error {", "refsql.Delete"),
+			hook("func (s *Store) Rename(oldKey, newKey string) (err error) {", "refsql.Rename"),
+			hook("func (s *Store) Copy(srcKey, dstKey string) (err error) {", "refsql.Copy"),
+			hook("func (s *Store) UpdateTransaction(tx *ref.Transaction) error {", "refsql.UpdateTransaction"),
+			hook("func (s *Store) DeleteTransaction(id uuid.UUID) error {", "refsql.DeleteTransaction"),
+		}, count: []int{1, 1, 1, 1, 1, 1, 1}},
+	}
+}
+
 func blockSizeRewrites(n int) []rewrite {
 	s := fmt.Sprint(n)
 	return []rewrite{
@@ -66,6 +90,7 @@ func main() {
 	}
 	var rws []rewrite
 	rws = append(rws, mapOrderRewrites()...)
+	rws = append(rws, crashHookRewrites()...)
 	switch variant {
 	case "plain":
 	case "b3":
